@@ -33,7 +33,8 @@ LEVEL_NOTE = ('Trusted: Lean kernel; harness (progen.py generator/renderer/refer
 
 
 def known_f7(w):
-    return bool(w.get('while_continue'))
+    # exactly F7: the implementation agrees with the reading in which `continue` inside `while` skips the condition test
+    return bool(w.get('explained_by_f7'))
 
 
 FINDING_MATCHERS = {'F7': known_f7}
@@ -103,8 +104,9 @@ def streams(ctx):
         if 'error' not in impl and 'hostexc' not in impl:
             ref = progen.run_reference(prog, g)
             if ref is not None and ref != progen.strip_hidden(impl):
-                ctx.witness('structured-reading', {'text': text, 'globals': g}, ref, progen.strip_hidden(impl),
-                            while_continue=progen.has_while_continue(prog))
+                ref7 = progen.run_reference(prog, g, f7_quirk=True) if progen.has_while_continue(prog) else None
+                ctx.witness('structured-reading', {'text': text, 'globals': g, 'prog': prog}, ref, progen.strip_hidden(impl),
+                            explained_by_f7=(ref7 is not None and ref7 == progen.strip_hidden(impl)))
 
 
 def disagreement_known(d, known):
@@ -130,9 +132,12 @@ def search(ctx):
         if 'error' in impl or 'hostexc' in impl:
             continue
         ref = progen.run_reference(prog, g)
-        if ref is not None and ref != progen.strip_hidden(impl) and not progen.has_while_continue(prog):
-            ctx.witness('structured-reading', {'text': text, 'globals': g}, ref, progen.strip_hidden(impl), while_continue=False)
-            return
+        if ref is not None and ref != progen.strip_hidden(impl):
+            ref7 = progen.run_reference(prog, g, f7_quirk=True) if progen.has_while_continue(prog) else None
+            if ref7 is None or ref7 != progen.strip_hidden(impl):
+                ctx.witness('structured-reading', {'text': text, 'globals': g, 'prog': prog}, ref, progen.strip_hidden(impl),
+                            explained_by_f7=False)
+                return
 
 
 def replay(witness):
